@@ -14,12 +14,9 @@ using dispenso::CpuSet;
 #ifndef VF_OPS
 #define VF_OPS 1
 #endif
-// operations drawn from [VF_OP_LO, VF_OP_HI]: 0 add, 1 addRange, 2 remove, 3 removeRange
-#ifndef VF_OP_LO
-#define VF_OP_LO 0
-#endif
-#ifndef VF_OP_HI
-#define VF_OP_HI 3
+// allowed operations, bit mask: 1 add, 2 addRange, 4 remove, 8 removeRange
+#ifndef VF_OPMASK
+#define VF_OPMASK 15
 #endif
 
 constexpr int32_t kCap = 1024;  // documented capacity: "A CpuSet represents CPU IDs in [0, 1024)"
@@ -71,7 +68,8 @@ extern "C" void vf_main() {
 
   bool expect = s.contains(x);
   for (int k = 0; k < VF_OPS; ++k) {
-    const uint8_t op = vf_range_u8(VF_OP_LO, VF_OP_HI);
+    const uint8_t op = vf_range_u8(0, 3);
+    vf_assume((VF_OPMASK >> op) & 1);
     const int32_t a = static_cast<int32_t>(vf_nondet_u32());
     const int32_t b = static_cast<int32_t>(vf_nondet_u32());
     const bool inRep = x >= 0 && x < kCap;
